@@ -15,6 +15,12 @@ package graph
 // The provider attached to a node and the node's identity do not change once the graph is handed to a built provider.
 //@ field Node.Provider immutable
 //@ field Node.Key immutable
+//@ field Node.Dependencies immutable
+//@ field Node.Dependents immutable
+//@ field DependencyGraph.nodes immutable contents map[NodeKey]*Node
+//@ field DependencyGraph.edges immutable contents map[NodeKey][]NodeKey
+//@ field DependencyGraph.sortedNodes guarded_by mu
+//@ field DependencyGraph.sortedNodesDirty guarded_by mu
 //
 // Interface methods of graph.Provider are observers: deterministic, no effect on the graph.
 //@ func Provider.GetType
@@ -31,16 +37,19 @@ package graph
 //@   pure
 //
 //@ func DependencyGraph.Size
-//@   requires wf: wf(g)
+//@   monitor[C19,C05,C06] wf: wf(g)
+//@   monitor[C19,C06] sort_cache: cacheOK(g)
 //@   ensures[C19] size: result == len(g.nodes)
 //@   ensures[C19] unchanged: g.nodes == old(g.nodes) && g.edges == old(g.edges) && wf(g)
 //
 //@ func DependencyGraph.HasNode
-//@   requires wf: wf(g)
+//@   monitor[C19,C05,C06] wf: wf(g)
+//@   monitor[C19,C06] sort_cache: cacheOK(g)
 //@   ensures[C19] member: result <==> (mk("NodeKey", serviceType, key, group) in g.nodes)
 //
 //@ func DependencyGraph.GetNode
-//@   requires wf: wf(g)
+//@   monitor[C19,C05,C06] wf: wf(g)
+//@   monitor[C19,C06] sort_cache: cacheOK(g)
 //@   ensures[C19] present: (mk("NodeKey", serviceType, key, group) in g.nodes) ==> result == g.nodes[mk("NodeKey", serviceType, key, group)] && result != nil
 //@   ensures[C19] absent: !(mk("NodeKey", serviceType, key, group) in g.nodes) ==> result == nil
 //
@@ -55,7 +64,8 @@ package graph
 //@ pred depsOf(p Provider) = pure("Provider.GetDependencies", p)
 //
 //@ func DependencyGraph.AddProviderDeferred
-//@   requires wf: wf(g)
+//@   monitor[C19,C05,C06] wf: wf(g)
+//@   monitor[C19,C06] sort_cache: cacheOK(g)
 //@   requires deps_nonnil: forall i int :: 0 <= i && i < len(depsOf(provider)) ==> depsOf(provider)[i] != nil
 //@   ensures[C19] nil_rejected: provider == nil ==> result != nil && g.nodes == old(g.nodes) && g.edges == old(g.edges) && wf(g)
 //@   ensures[C19] accepted: provider != nil ==> result == nil
@@ -68,8 +78,11 @@ package graph
 //@   ensures[C19] replace_no_deps: provider != nil && len(depsOf(provider)) == 0 ==> !(keyOf(provider) in g.edges) || len(g.edges[keyOf(provider)]) == 0
 //@   ensures[C19,C05] other_edges_kept: forall j NodeKey :: provider != nil && j != keyOf(provider) ==> ((j in g.edges) <==> old(j in g.edges)) && g.edges[j] == old(g.edges[j])
 //@   ensures[C19,C05,C06] caches_invalidated: provider != nil ==> g.sortedNodesDirty && g.cycleCacheDirty
-//@   ensures[C19] wf: wf(g)
+//@   ensures[C19,C01] providers_of_other_nodes_kept: forall j NodeKey :: provider != nil && (j in g.nodes) && j != keyOf(provider) ==>
+//@        ite(old(j in g.nodes), g.nodes[j] == old(g.nodes[j]) && g.nodes[j].Provider == old(g.nodes[j].Provider), g.nodes[j].Provider == nil)
 //@   loop 1
+//@     invariant providers_kept: forall j NodeKey :: (j in g.nodes) && j != nodeKey ==>
+//@        ite(old(j in g.nodes), g.nodes[j] == old(g.nodes[j]) && g.nodes[j].Provider == old(g.nodes[j].Provider), g.nodes[j].Provider == nil)
 //@     invariant len_deps: len(dependencies) == idx && !isnil(dependencies)
 //@     invariant deps_prefix: forall i int :: 0 <= i && i < idx ==> dependencies[i] == depKey(providerDeps[i])
 //@     invariant nodes_grow: forall j NodeKey :: old(j in g.nodes) ==> j in g.nodes
@@ -129,7 +142,8 @@ package graph
 //@   && (forall i int :: 0 <= i && i < len(b) && b[i] != t ==> occurs(b[i], a))
 //
 //@ func DependencyGraph.RemoveProvider
-//@   requires wf: wf(g)
+//@   monitor[C19,C05,C06] wf: wf(g)
+//@   monitor[C19,C06] sort_cache: cacheOK(g)
 //@   let tgt = mk("NodeKey", serviceType, key, group)
 //@   ensures[C19] absent_noop: !old(tgt in g.nodes) ==> g.nodes == old(g.nodes) && g.edges == old(g.edges)
 //@        && (forall j NodeKey :: ((j in g.nodes) <==> old(j in g.nodes)) && ((j in g.edges) <==> old(j in g.edges)) && g.edges[j] == old(g.edges[j]))
@@ -164,7 +178,8 @@ package graph
 //@   && (!(k in g.edges) ==> len(g.nodes[k].Dependencies) == 0)
 //
 //@ func DependencyGraph.GetDependencies
-//@   requires wf: wf(g)
+//@   monitor[C19,C05,C06] wf: wf(g)
+//@   monitor[C19,C06] sort_cache: cacheOK(g)
 //@   requires mirror: mirror(g)
 //@   let q = mk("NodeKey", serviceType, key, group)
 //@   ensures[C19] absent: !(q in g.nodes) ==> isnil(result)
@@ -172,7 +187,8 @@ package graph
 //@   ensures[C19] present_elems: forall i int :: (q in g.nodes) && (q in g.edges) && 0 <= i && i < len(g.edges[q]) ==> result[i] == g.edges[q][i]
 //
 //@ func DependencyGraph.GetDependents
-//@   requires wf: wf(g)
+//@   monitor[C19,C05,C06] wf: wf(g)
+//@   monitor[C19,C06] sort_cache: cacheOK(g)
 //@   let q = mk("NodeKey", serviceType, key, group)
 //@   ensures[C19] absent: !(q in g.nodes) ==> isnil(result)
 //@   ensures[C19] present: (q in g.nodes) ==> !isnil(result) && len(result) == len(g.nodes[q].Dependents)
@@ -186,26 +202,41 @@ package graph
 //@   loop 1
 //@     invariant maps: g.cycleCache != nil && visited != nil && visiting != nil && g.cycleCache == old(g.cycleCache)
 //
+// cacheOK(g): a topological order marked clean lists nodes of the graph only, as many as there are nodes
+//@ pred cacheOK(g *DependencyGraph) = (!g.sortedNodesDirty && !isnil(g.sortedNodes)) ==> (len(g.sortedNodes) == len(g.nodes)
+//@        && (forall i int :: 0 <= i && i < len(g.sortedNodes) ==> g.sortedNodes[i] != nil && (g.sortedNodes[i].Key in g.nodes) && g.nodes[g.sortedNodes[i].Key] == g.sortedNodes[i]))
+//
+// dependentsOK(g): the Dependents lists are exactly the reversed edges (as sets), all inside the node set
+//@ pred dependentsOK(g *DependencyGraph) = (forall k NodeKey, i int :: k in g.nodes && 0 <= i && i < len(g.nodes[k].Dependents) ==>
+//@        (g.nodes[k].Dependents[i] in g.edges) && (g.nodes[k].Dependents[i] in g.nodes) && occurs(k, g.edges[g.nodes[k].Dependents[i]]))
+//@   && (forall f NodeKey, i int :: f in g.edges && f in g.nodes && 0 <= i && i < len(g.edges[f]) && (g.edges[f][i] in g.nodes) ==> occurs(f, g.nodes[g.edges[f][i]].Dependents))
+//
 //@ func DependencyGraph.DetectCycles
-//@   requires wf: wf(g)
+//@   monitor[C19,C05,C06] wf: wf(g)
+//@   monitor[C19,C06] sort_cache: cacheOK(g)
 //@   modifies map[NodeKey]bool, CircularDependencyError.Node, CircularDependencyError.Path, alloc, Node.InDegree, Node.OutDegree, Node.Dependents, Node.Dependencies, Node.Visited, Node.Visiting, DependencyGraph.cycleCache, DependencyGraph.cycleCacheDirty
 //@   safety[C15,C05]
 //@   ensures[C05,C19] graph_unchanged: g.nodes == old(g.nodes) && g.edges == old(g.edges) && wf(g)
 //@   ensures[C05,C19] mirror: mirror(g) || !old(mirror(g))
 //@   ensures[C05] shape: result == nil || (typeis(result, "*CircularDependencyError") && as(result, "*CircularDependencyError") != nil)
 //@   ensures[C05,C19] cache_clean: !g.cycleCacheDirty
+//@   ensures[C06,C19] degrees_fresh: dependentsOK(g)
+//@   ensures[C06,C19] sort_cache_untouched: g.sortedNodesDirty == old(g.sortedNodesDirty) && g.sortedNodes == old(g.sortedNodes)
+//@   ensures[C06,C19] providers_kept: forall k NodeKey :: (k in g.nodes) ==> g.nodes[k] == old(g.nodes[k]) && g.nodes[k].Provider == old(g.nodes[k].Provider)
 //@   loop 2
 //@     invariant maps: g.nodes == old(g.nodes) && g.edges == old(g.edges) && g.cycleCache != nil && s3(g)
 //@   loop 3
 //@     invariant maps: g.nodes == old(g.nodes) && g.edges == old(g.edges) && g.cycleCache != nil && s3(g)
 //
 //@ func DependencyGraph.IsAcyclic
-//@   requires wf: wf(g)
+//@   monitor[C19,C05,C06] wf: wf(g)
+//@   monitor[C19,C06] sort_cache: cacheOK(g)
 //@   modifies map[NodeKey]bool, CircularDependencyError.Node, CircularDependencyError.Path, alloc, Node.InDegree, Node.OutDegree, Node.Dependents, Node.Dependencies, Node.Visited, Node.Visiting, DependencyGraph.cycleCache, DependencyGraph.cycleCacheDirty
 //@   ensures[C05,C19] graph_unchanged: g.nodes == old(g.nodes) && g.edges == old(g.edges) && wf(g)
 //
 //@ func DependencyGraph.AddProvider
-//@   requires wf: wf(g)
+//@   monitor[C19,C05,C06] wf: wf(g)
+//@   monitor[C19,C06] sort_cache: cacheOK(g)
 //@   requires deps_nonnil: forall i int :: 0 <= i && i < len(depsOf(provider)) ==> depsOf(provider)[i] != nil
 //@   safety[C15,C19]
 //@   ensures[C19] nil_rejected: provider == nil ==> result != nil && g.nodes == old(g.nodes) && g.edges == old(g.edges) && wf(g)
@@ -245,7 +276,8 @@ package graph
 //@ pred occursN(p *Node, s []*Node) = exists i int :: 0 <= i && i < len(s) && s[i] == p
 //
 //@ func DependencyGraph.GetRoots
-//@   requires wf: wf(g)
+//@   monitor[C19,C05,C06] wf: wf(g)
+//@   monitor[C19,C06] sort_cache: cacheOK(g)
 //@   ensures[C19] sound: forall i int :: 0 <= i && i < len(result) ==> result[i] != nil && result[i].InDegree == 0 && (result[i].Key in g.nodes) && g.nodes[result[i].Key] == result[i]
 //@   ensures[C19] complete: forall k NodeKey :: k in g.nodes && g.nodes[k].InDegree == 0 ==> occursN(g.nodes[k], result)
 //@   ensures[C19] unchanged: g.nodes == old(g.nodes) && g.edges == old(g.edges) && wf(g)
@@ -254,7 +286,8 @@ package graph
 //@     invariant complete: forall k NodeKey :: k in g.nodes && seen[k] && g.nodes[k].InDegree == 0 ==> occursN(g.nodes[k], roots)
 //
 //@ func DependencyGraph.GetLeaves
-//@   requires wf: wf(g)
+//@   monitor[C19,C05,C06] wf: wf(g)
+//@   monitor[C19,C06] sort_cache: cacheOK(g)
 //@   ensures[C19] sound: forall i int :: 0 <= i && i < len(result) ==> result[i] != nil && result[i].OutDegree == 0 && (result[i].Key in g.nodes) && g.nodes[result[i].Key] == result[i]
 //@   ensures[C19] complete: forall k NodeKey :: k in g.nodes && g.nodes[k].OutDegree == 0 ==> occursN(g.nodes[k], result)
 //@   ensures[C19] unchanged: g.nodes == old(g.nodes) && g.edges == old(g.edges) && wf(g)
@@ -263,16 +296,34 @@ package graph
 //@     invariant complete: forall k NodeKey :: k in g.nodes && seen[k] && g.nodes[k].OutDegree == 0 ==> occursN(g.nodes[k], leaves)
 //
 //@ func DependencyGraph.TopologicalSort
-//@   requires wf: wf(g)
+//@   monitor[C19,C05,C06] wf: wf(g)
+//@   monitor[C19,C06] sort_cache: cacheOK(g)
 //@   modifies DependencyGraph.sortedNodes, DependencyGraph.sortedNodesDirty, alloc
 //@   safety[C15,C06]
 //@   ensures[C06,C19] graph_unchanged: g.nodes == old(g.nodes) && g.edges == old(g.edges) && wf(g)
 //@   ensures[C06,C15] value_xor_error: (result1 == nil) ==> !isnil(result0)
 //@   ensures[C06,C15] error_has_no_order: (result1 != nil) ==> isnil(result0)
+//@   ensures[C06,C19] only_nodes_listed: forall i int :: 0 <= i && i < len(result0) ==> result0[i] != nil && (result0[i].Key in g.nodes) && g.nodes[result0[i].Key] == result0[i]
+//@   ensures[C06,C19] every_node_counted: result1 == nil ==> len(result0) == len(g.nodes)
+//@   requires degrees_fresh: dependentsOK(g)
+//@   loop 1
+//@     invariant counts_for_nodes: depCounts != nil && (forall k NodeKey :: (k in depCounts) <==> seen[k]) && len(result) == 0 && !isnil(result)
+//@   loop 2
+//@     invariant queue_in_nodes: !isnil(queue) && (forall i int :: 0 <= i && i < len(queue) ==> (queue[i] in g.nodes)) && len(result) == 0 && !isnil(result)
+//@     invariant counts_for_nodes: forall k NodeKey :: (k in depCounts) <==> (k in g.nodes)
+//@   loop 3
+//@     invariant queue_in_nodes: forall i int :: 0 <= i && i < len(queue) ==> (queue[i] in g.nodes)
+//@     invariant counts_for_nodes: forall k NodeKey :: (k in depCounts) <==> (k in g.nodes)
+//@     invariant result_in_nodes: !isnil(result) && (forall i int :: 0 <= i && i < len(result) ==> result[i] != nil && (result[i].Key in g.nodes) && g.nodes[result[i].Key] == result[i])
+//@   loop 4
+//@     invariant queue_in_nodes: forall i int :: 0 <= i && i < len(queue) ==> (queue[i] in g.nodes)
+//@     invariant counts_for_nodes: forall k NodeKey :: (k in depCounts) <==> (k in g.nodes)
+//@     invariant result_in_nodes: !isnil(result) && (forall i int :: 0 <= i && i < len(result) ==> result[i] != nil && (result[i].Key in g.nodes) && g.nodes[result[i].Key] == result[i])
+//@     invariant cur: node != nil && (current in g.nodes) && g.nodes[current] == node
 //
 //@ func NewDependencyGraphWithCapacity
-//@   ensures[C19,C05] empty_graph: result != nil && fresh(result) && wf(result) && len(result.nodes) == 0 && (forall k NodeKey :: !(k in result.nodes) && !(k in result.edges))
+//@   ensures[C19,C05] empty_graph: result != nil && fresh(result) && wf(result) && cacheOK(result) && len(result.nodes) == 0 && (forall k NodeKey :: !(k in result.nodes) && !(k in result.edges))
 //@        && result.sortedNodesDirty && result.cycleCacheDirty
 //@ func NewDependencyGraph
-//@   ensures[C19,C05] empty_graph: result != nil && fresh(result) && wf(result) && len(result.nodes) == 0 && (forall k NodeKey :: !(k in result.nodes) && !(k in result.edges))
+//@   ensures[C19,C05] empty_graph: result != nil && fresh(result) && wf(result) && cacheOK(result) && len(result.nodes) == 0 && (forall k NodeKey :: !(k in result.nodes) && !(k in result.edges))
 //@        && result.sortedNodesDirty && result.cycleCacheDirty
